@@ -238,6 +238,27 @@ def run(case, ctx):
             miss = {k: v for k, v in exp_assoc.items() if got_assoc.get(k) != v}
             extra = {k: v for k, v in got_assoc.items() if exp_assoc.get(k) != v}
             problems.append(f"association edges differ: missing/wrong {dict(list(miss.items())[:4])} extra {dict(list(extra.items())[:4])} duplicates {dup}")
+        # the derived accessors answer from every edge (two classes can be connected by several edges: a field typed
+        # with a subclass of its own class, two fields with the same target)
+        try:
+            name_of_index = {w.index: w.clazz.__name__ for w in cd.wrapped_classes}
+            got_parents = {(name_of_index[p_], name_of_index[c_]) for c_, ps in cd.parent_map.items() for p_ in ps}
+            if got_parents != inherit:
+                problems.append(f"parent_map gives {sorted(got_parents)} for the direct-base pairs {sorted(inherit)}")
+            keys = cd.get_assoc_keys_by_source(include_field_name=True)
+            for w in cd.wrapped_classes:
+                exp_fields = {fn for (owner, fn) in exp_assoc if owner == w.clazz.__name__}
+                got_fields = {k_[2] if len(k_) > 2 else None for k_ in keys.get(w.index, set())}
+                if exp_fields != got_fields and None not in got_fields:
+                    problems.append(f"get_assoc_keys_by_source(True) lists the fields {sorted(map(str, got_fields))} for {w.clazz.__name__}, "
+                                    f"its association fields are {sorted(exp_fields)}")
+                exp_nb = ({p_ for p_, c_ in inherit if c_ == w.clazz.__name__} | {c_ for p_, c_ in inherit if p_ == w.clazz.__name__})
+                got_nb = {n.clazz.__name__ for n in cd.get_neighbors_with_relation_type(w.clazz, Inheritance)}
+                if exp_nb != got_nb:
+                    problems.append(f"inheritance neighbours of {w.clazz.__name__}: {sorted(got_nb)} != {sorted(exp_nb)}")
+            C["derived_accessor_checks"] += 1
+        except Exception as e:
+            C["derived_accessors_unavailable:" + type(e).__name__] += 1
         for wc in cd.wrapped_classes:
             for wf in wc.fields:
                 k = (wc.clazz.__name__, wf.field.name)
